@@ -259,10 +259,16 @@ func classSpec(r *rng.R) (*lexspec.Spec, specgen.Alphabet, []rune) {
 			k := rune(r.Intn(3))
 			if r.Chance(1, 2) {
 				lo := pick()
+				if lo > 0x10FFFF-k {
+					lo = 0x10FFFF - k // never a range whose lower bound is above its upper bound
+				}
 				c.Items = append(c.Items, lexspec.Item{Lo: lo, Hi: 0x10FFFF - k})
 				probes = append(probes, lo-1, lo, 0x10FFFF-k-1, 0x10FFFF-k, 0x10FFFF-k+1, 0x10FFFF)
 			} else {
 				hi := pick()
+				if hi < k {
+					hi = k
+				}
 				c.Items = append(c.Items, lexspec.Item{Lo: k, Hi: hi})
 				probes = append(probes, 0, k-1, k, k+1, hi, hi+1)
 			}
